@@ -68,4 +68,14 @@ def build(tier, seed):
     except SliceError as e:
         ks.append(Kernel(name='link_name', error='slice-failed: %s' % e))
     ks.append(kernel_or_error('abi', abi))
+    # the widths of argument / return / global types named through <stdint.h> (shared with C02, kernel `tables`)
+    try:
+        from props import c02
+        for kk in c02.build(tier, seed):
+            if kk.name == 'tables':
+                kk.name = 'primitive_tables'
+                kk.harnesses = [h for h in kk.harnesses if h.name in ('stdint_names_map_to_the_right_primitive', 'integer_kinds_map_to_rust_types_of_the_same_width_and_sign')]
+                ks.append(kk)
+    except Exception as e:
+        ks.append(Kernel(name='primitive_tables', error='build-failed: %s' % e))
     return ks
